@@ -207,16 +207,28 @@ def _check_case(case, coll, coll_dir) -> Verdict:
         return v
     # traced phase locations at Tn scale like s (tracing tolerance relative to max(|phi|, T))
     size = max(ha["Tnucl"], max(abs(x) for x in ha["tracedHighAtTn"] + ha["tracedLowAtTn"] if x == x))
+    # what a minimiser can resolve from function values in double precision: V is dominated by its
+    # T^4 part, so a soft direction (small Hessian eigenvalue) is located only to
+    # ~sqrt(2 eps |V| / lambda_min); unit covariant, computed from the closed form at Tn
+    cfA = zp.closed(spec1)
+    TnA = ha["Tnucl"]
+    res_floor = 0.0
+    for which in ("high", "low"):
+        xA = cfA.phase(which, TnA)
+        lam_min = float(np.min(np.linalg.eigvalsh(cfA.hess(xA, TnA))))
+        if lam_min > 0:
+            res_floor = max(res_floor, 32.0 * math.sqrt(2 * 2.2e-16 * abs(float(cfA.V(xA, TnA))) / lam_min))
     for k in ("tracedHighAtTn", "tracedLowAtTn"):
         for i, (a, b, c) in enumerate(zip(ha[k], hb[k], hc[k])):
             if a == a and b == b:
-                cmp("thermo", f"{k}[{i}]", a, b, c if c == c else None, power=1, extra_abs=K * tolTrace * size)
+                cmp("thermo", f"{k}[{i}]", a, b, c if c == c else None, power=1,
+                    extra_abs=K * tolTrace * size + 2 * res_floor)
     # the minima located by validatePhaseInput (scipy default tolerances) are compared separately
     v.checked("phases-at-Tn")
     nviol = 0  # phase-location mismatches (either kind) do not stop the comparison of later stages
     for k in ("phase1", "phase2"):
         for i, (a, b, c) in enumerate(zip(ha[k], hb[k], hc[k])):
-            cmp("phases-at-Tn", f"{k}[{i}]", a, b, c, power=1, extra_abs=K * 1e-5 * size)
+            cmp("phases-at-Tn", f"{k}[{i}]", a, b, c, power=1, extra_abs=K * 1e-5 * size + 2 * res_floor)
     pat = v.violations[nviol:]
     del v.violations[nviol:]
     if not v.violations:
